@@ -15,10 +15,10 @@ Definition blank_row_witness : list sline :=
   [ (lit "00:00:01:00", [37926; 38061; 38000; 24930]); (lit "00:00:01:16", [37926; 38061; 8224; 8224]);
     (lit "00:00:01:22", [38061; 38000; 58212]) ].
 
-Theorem gap_after_empty_row_refuted : exists s1 e1 s2 e2,
+Example gap_after_empty_row_refuted : exists s1 e1 s2 e2,
   spans_of (read 0 gap_witness) = Ok [(s1, e1); (s2, e2)] /\ (s1 < e1)%Q /\ (e1 < s2)%Q.
 Proof. eexists _, _, _, _. split; [vm_compute; reflexivity|]. split; vm_compute; reflexivity. Qed.
 
-Theorem blank_only_row_refuted : exists s1 e1 s2 e2,
+Example blank_only_row_refuted : exists s1 e1 s2 e2,
   spans_of (read 0 blank_row_witness) = Ok [(s1, e1); (s2, e2)] /\ (0 < s1)%Q /\ (e1 == 0)%Q /\ (s1 < s2)%Q.
 Proof. eexists _, _, _, _. split; [vm_compute; reflexivity|]. repeat split; vm_compute; reflexivity. Qed.
